@@ -1025,10 +1025,19 @@ def _check_capacity(repo, r4, schemes):
                 if n.kind == "stmt" and isinstance(st, ast.Assign) and isinstance(st.value, ast.ListComp) and isinstance(st.value.elt, ast.List):
                     rt = ft.term(st.value.generators[0].iter, n.id)
                     sites.append(("allocation of the level lists", rt[2][0] if rt[0] == "call" and rt[1] == "range" and len(rt[2]) == 1 else rt, st))
-                if n.kind == "for" and isinstance(st.iter, ast.Call) and dotted(st.iter.func) == "range" and len(st.iter.args) == 1 and \
-                        not any(isinstance(a, (ast.For, ast.While)) for a in ancestors(st)):
-                    sites.append(("level loop", ft.term(st.iter.args[0], n.id), st))
             allocs = [x for x in sites if x[0].startswith("allocation")]
+            alloc_names0 = {tg.id for _w, _t, st_ in allocs for tg in st_.targets if isinstance(tg, ast.Name)}
+            for n in ft.cfg.nodes:
+                st = n.stmt
+                # a loop over the levels: a top-level `for v in range(X)` whose body addresses a level list by v (a padding loop that
+                # merely repeats N - len(S) times is not one)
+                if n.kind == "for" and isinstance(st.iter, ast.Call) and dotted(st.iter.func) == "range" and len(st.iter.args) == 1 and \
+                        not any(isinstance(a, (ast.For, ast.While)) for a in ancestors(st)) and isinstance(st.target, ast.Name):
+                    v_ = st.target.id
+                    by_level = any(isinstance(x, ast.Subscript) and isinstance(x.value, ast.Name) and x.value.id in alloc_names0 and
+                                   any(isinstance(y, ast.Name) and y.id == v_ for y in ast.walk(x.slice)) for b_ in st.body for x in ast.walk(b_))
+                    if by_level:
+                        sites.append(("level loop", ft.term(st.iter.args[0], n.id), st))
             r4.require(len(allocs) >= 1 and len(sites) >= 2, enc, "level sites",
                        "%s: expected the allocation of the level lists and at least one loop over the levels, found %d site(s)" % (s.name, len(sites)))
             alloc_names = {tg.id for _w, _t, st in allocs for tg in st.targets if isinstance(tg, ast.Name)}
